@@ -9,7 +9,7 @@ CFG = {
             "length bound x {BST, AVL, Red-Black} x {ascending, reverse, a-b, b-a, 3*(a-b)} comparators (the difference-valued ones return "
             "magnitudes other than 1: only the sign may be used; plus a non-antisymmetric preorder on shorter histories); every prefix is a case; the first time an implementation reaches a state "
             "it gets the full battery (Size IsEmpty Height Min Max All, Get/Floor/Ceiling/Rank on present, absent and boundary keys, "
-            "Select -1..n+1, Range/RangeSize on all ordered and inverted probe pairs, the 9 traversal orders, early-exit traversals, "
+            "Select -1..n+1, Range/RangeSize on all ordered and inverted probe pairs, the 9 traversal orders, the public Traverse in every order and All() with visitors that stop after 0..n+1 pairs (visited prefix and number of visitor calls compared), "
             "Any/All/First/Select/PartitionMatch with 8 predicates, Equal against equal / differing / other-implementation siblings); "
             "random: universes up to 64 keys, up to 400 steps, sorted / reverse / zig-zag / random insertion prefixes, churn with "
             "interleaved random queries (absent keys included), DeleteMin / DeleteMax / alternating drains. "
